@@ -30,7 +30,7 @@ COMMON_ASSUME = [
 PROPS = {}
 
 PROPS["C01"] = {
-    "legs": [rapid("hist", "pstree", "TestC01Hist", 8, 4000, 16, 1500000)],
+    "legs": [rapid("hist", "pstree", "TestC01Hist", 8, 4000, 16, 600000)],
     "rule": "rapid draws a history as data (beta in {0,1,50,250,500,999,1000} or uniform 0..1000; unsorted, duplicated "
             "initial keys for New; <=60 ops among Add/Replace/Remove/Get/Clear/Clone/switch/Inorder(stop)/InorderAfter "
             "(present, absent, below min, above max) plus macro ops: ascending/descending/zig-zag runs (inserting through "
@@ -48,7 +48,7 @@ PROPS["C01"] = {
 }
 
 PROPS["C02"] = {
-    "legs": [rapid("bound", "pstree", "TestC02Bound", 8, 1500, 16, 150000),
+    "legs": [rapid("bound", "pstree", "TestC02Bound", 8, 1500, 16, 40000),
              plain("newheight", "pstree", "TestC02NewHeights")],
     "rule": "leg bound: histories as in C01 plus an adaptive adversary op that inserts a fresh key directly beneath a "
             "deepest leaf (located by a cursor walk; through Add or Replace); beta in [0,999]; trees up to 2000 nodes; after EVERY single "
@@ -64,7 +64,7 @@ PROPS["C02"] = {
 }
 
 PROPS["C03"] = {
-    "legs": [rapid("cursor", "pstree", "TestC03Cursor", 4, 1000, 16, 150000)],
+    "legs": [rapid("cursor", "pstree", "TestC03Cursor", 4, 1000, 16, 60000)],
     "rule": "a tree is built by a C01-style history (beta biased to 500/900/1000 so that skewed shapes occur; runs and "
             "adversarial deep inserts), then: (a) Cursor(key) for every key and for absent keys below/above/inside the "
             "range; (b) a structural recursion from Root using only Clone/Left/Right that reconstructs the shape and "
@@ -82,9 +82,9 @@ PROPS["C03"] = {
 }
 
 PROPS["C04"] = {
-    "legs": [rapid("hist", "pstree", "TestC04Hist", 4, 4000, 16, 800000),
-             rapid("float", "pstree", "TestC04Float", 2, 2000, 8, 300000),
-             rapid("str", "pstree", "TestC04Str", 2, 3000, 8, 300000),
+    "legs": [rapid("hist", "pstree", "TestC04Hist", 4, 4000, 16, 300000),
+             rapid("float", "pstree", "TestC04Float", 2, 2000, 8, 150000),
+             rapid("str", "pstree", "TestC04Str", 2, 3000, 8, 150000),
              plain("deep", "pstree", "TestC04Deep")],
     "rule": "histories of <=50(+9) ops on two copies of one omap.Map value (ops alternate between the copies): "
             "Set/Delete/Clear/Get/GetOK on present, absent-below, absent-above and absent-inside keys; iterator "
@@ -114,8 +114,8 @@ HEAP_TRIAGE = ("Known findings F1 (sift-up through slot i/2) and F2 (no sift-up 
                "queue's array order after every operation; every other clause is strict always.")
 
 PROPS["C05"] = {
-    "legs": [rapid("hist", "pheap", "TestC05Hist", 4, 5000, 16, 300000),
-             rapid("sort", "pheap", "TestC05Sort", 1, 3000, 4, 300000),
+    "legs": [rapid("hist", "pheap", "TestC05Hist", 4, 5000, 16, 150000),
+             rapid("sort", "pheap", "TestC05Sort", 1, 3000, 4, 150000),
              plain("sortx", "pheap", "TestC05SortExhaustive", solo=True)],
     "rule": "leg hist: constructor New or NewWithData (arbitrary data, spare capacity), both comparison directions, "
             "<=60(+20) ops among Add, Pop, Front, Peek(i) incl. out of range and negative (must panic), Remove(i) "
@@ -136,7 +136,7 @@ PROPS["C05"] = {
 }
 
 PROPS["C06"] = {
-    "legs": [rapid("pos", "pheap", "TestC06Pos", 4, 5000, 16, 120000),
+    "legs": [rapid("pos", "pheap", "TestC06Pos", 4, 5000, 16, 50000),
              plain("bigpos", "pheap", "TestC06BigPos")],
     "rule": "histories as C05 (mode G) with an update callback installed that records the last reported position per "
             "element id; extra ops: removeElem (Remove at the recorded position of a chosen tracked element must return "
@@ -152,7 +152,7 @@ PROPS["C06"] = {
 }
 
 PROPS["C07"] = {
-    "legs": [rapid("hist", "pqueue", "TestC07Hist", 4, 4000, 16, 120000),
+    "legs": [rapid("hist", "pqueue", "TestC07Hist", 4, 4000, 16, 60000),
              plain("exh", "pqueue", "TestC07Exh", solo=True)],
     "rule": "leg hist: rapid draws a history as data: constructor in {zero value, New(), NewSize(n), n in 0..17}; <=76 random "
             "ops among Add, Push, Pop, PopLast, Clear, Front, Peek(i in [-Len-2, Len+2]), Each(stop after j), Slice, Len and "
@@ -180,10 +180,10 @@ PROPS["C07"] = {
 }
 
 PROPS["C10"] = {
-    "legs": [rapid("stack", "pseq", "TestC10Stack", 4, 2000, 16, 150000),
-             rapid("mqueue", "pseq", "TestC10MQueue", 4, 2000, 16, 150000),
-             rapid("list", "pseq", "TestC10List", 4, 2000, 16, 150000),
-             rapid("ring", "pseq", "TestC10Ring", 4, 2000, 16, 150000)],
+    "legs": [rapid("stack", "pseq", "TestC10Stack", 4, 2000, 16, 60000),
+             rapid("mqueue", "pseq", "TestC10MQueue", 4, 2000, 16, 60000),
+             rapid("list", "pseq", "TestC10List", 4, 2000, 16, 60000),
+             rapid("ring", "pseq", "TestC10Ring", 4, 2000, 16, 60000)],
     "rule": "Four rapid legs, each drawing a history as data and comparing with a reference after EVERY step. "
             "stack / mqueue: zero value or constructor; Push/Add/Pop/Top/Front/Peek(n in and out of range; n<0 must panic)/"
             "Each(stop after j)/Len/IsEmpty/Clear/Slice and runs, against a reference slice (Each/Slice of the stack newest "
@@ -222,7 +222,7 @@ PROPS["C10"] = {
 }
 
 PROPS["C08"] = {
-    "legs": [rapid("hist", "pcache", "TestC08Hist", 4, 6000, 16, 2000000),
+    "legs": [rapid("hist", "pcache", "TestC08Hist", 4, 6000, 16, 500000),
              plain("longrun", "pcache", "TestC08LongRun", shards={"quick": 1, "thorough": 2})],
     "rule": "limit in 1..12 (biased to >=6); size function absent (unit) or value-dependent (0..4, sometimes exactly the "
             "limit or above it); keys in 0..limit+3 so that evictions happen; unique values; <=60(+limit+6) ops among Put, "
@@ -282,7 +282,7 @@ PROPS["C09"] = {
 
 PROPS["C13"] = {
     "legs": [plain("exh", "pmdiff", "TestC13Exhaustive", solo=True),
-             rapid("rand", "pmdiff", "TestC13Rand", 4, 3000, 16, 600000)],
+             rapid("rand", "pmdiff", "TestC13Rand", 4, 3000, 16, 200000)],
     "rule": "leg exh: every pair (Left, Right) of line sequences over {a,b,c} with both lengths <=5 (quick) / <=6 "
             "(thorough), each with every context size n in {0,1,2,3,4,50}; leg rand: pairs of up to ~45 lines derived from "
             "a common base by per-line delete/replace/insert mutations over alphabets of 2-5 lines (so lines repeat), n "
@@ -304,7 +304,7 @@ PROPS["C13"] = {
 
 PROPS["C18"] = {
     "legs": [plain("exh", "pmapset", "TestC18Exhaustive"),
-             rapid("hist", "pmapset", "TestC18Hist", 4, 25000, 16, 2000000)],
+             rapid("hist", "pmapset", "TestC18Hist", 4, 25000, 16, 600000)],
     "rule": "A case is a history over four set variables (JSON: initial values as element lists, null = the nil set, "
             "[] = empty non-nil; ops with plain integer arguments).  One interpreter serves both legs: the reference "
             "of every variable is a strictly ascending slice of ints (never a Go map); after EVERY step every "
@@ -344,7 +344,7 @@ PROPS["C18"] = {
 }
 
 PROPS["C19"] = {
-    "legs": [rapid("det", "pdistinct", "TestC19Det", 4, 20000, 16, 1200000),
+    "legs": [rapid("det", "pdistinct", "TestC19Det", 4, 20000, 16, 400000),
              plain("stat", "pdistinct", "TestC19Stat", solo=True, shards={"quick": 1, "thorough": 4}),
              plain("reuse", "pdistinct", "TestC19Reuse"),
              plain("huge", "pdistinct", "TestC19Huge"),
@@ -397,10 +397,10 @@ PROPS["C19"] = {
 
 PROPS["C20"] = {
     "legs": [plain("mbits", "pbytes", "TestC20Bits", solo=True),
-             rapid("mbitsval", "pbytes", "TestC20BitsValues", 2, 20000, 8, 1000000),
+             rapid("mbitsval", "pbytes", "TestC20BitsValues", 2, 20000, 8, 500000),
              plain("trunc", "pbytes", "TestC20Trunc"),
              plain("natural", "pbytes", "TestC20Natural", solo=True),
-             rapid("naturalrand", "pbytes", "TestC20NaturalRand", 4, 50000, 16, 4000000)],
+             rapid("naturalrand", "pbytes", "TestC20NaturalRand", 4, 50000, 16, 1500000)],
     "rule": "leg mbits (exhaustive enumeration, case = data bytes in hex + address alignment): for every length "
             "0..300 (thorough 0..1000) and every alignment 0..7 of the first byte's ADDRESS (sub-slice of one backing "
             "array with >= 8 guard bytes on each side, the slice keeps the spare capacity so a stray write lands in a "
@@ -447,8 +447,8 @@ PROPS["C20"] = {
 
 PROPS["C14"] = {
     "legs": [plain("exh", "pmdiff", "TestC14Exhaustive", solo=True),
-             rapid("rand", "pmdiff", "TestC14Rand", 4, 2500, 16, 100000),
-             rapid("git", "pmdiff", "TestC14Git", 2, 1500, 8, 60000),
+             rapid("rand", "pmdiff", "TestC14Rand", 4, 2500, 16, 50000),
+             rapid("git", "pmdiff", "TestC14Git", 2, 1500, 8, 30000),
              plain("gnupatch", "pmdiff", "TestC14GnuPatch", shards={"quick": 1, "thorough": 4}),
              fuzz("fuzz", "pmdiff", "FuzzUnifiedRoundTrip", 90)],
     "rule": "diffs are New(L,R) (n=-1) or New(L,R).AddContext(n).Unify() (n in 0..3). leg exh: every pair over {a,b,c} "
@@ -480,7 +480,7 @@ PROPS["C14"] = {
 
 PROPS["C15"] = {
     "legs": [plain("exh", "pshell", "TestC15Exhaustive", solo=True),
-             rapid("lists", "pshell", "TestC15Lists", 4, 3000, 16, 600000),
+             rapid("lists", "pshell", "TestC15Lists", 4, 3000, 16, 200000),
              plain("pool", "pshell", "TestC15Pool"),
              plain("shells", "pshell", "TestC15Shells", solo=True),
              fuzz("fuzz", "pshell", "FuzzQuoteSplit", 60)],
@@ -505,7 +505,7 @@ PROPS["C15"] = {
 PROPS["C16"] = {
     "legs": [plain("exh", "pshell", "TestC16Exhaustive", solo=True),
              plain("conc", "pshell", "TestC16Conc"),
-             rapid("rand", "pshell", "TestC16Rand", 4, 2500, 16, 100000),
+             rapid("rand", "pshell", "TestC16Rand", 4, 2500, 16, 40000),
              plain("shells", "pshell", "TestC16Shells", solo=True),
              fuzz("fuzz", "pshell", "FuzzSplit", 60)],
     "rule": "leg exh: every string of length <=6 (quick) / <=7 (thorough) over one representative per tokenizer class "
@@ -536,8 +536,8 @@ PROPS["C16"] = {
 PROPS["C11"] = {
     "legs": [plain("exh", "pslice", "TestC11Exhaustive", solo=True),
              plain("alias", "pslice", "TestC11Alias", solo=True),
-             rapid("rand", "pslice", "TestC11Rand", 4, 10000, 16, 120000),
-             rapid("big", "pslice", "TestC11Big", 4, 3, 16, 40)],
+             rapid("rand", "pslice", "TestC11Rand", 4, 10000, 16, 50000),
+             rapid("big", "pslice", "TestC11Big", 4, 3, 16, 20)],
     "rule": "leg alias: lhs and rhs are two windows buf[i:j], buf[k:l] of ONE backing array (a slice diffed against its own prefix, suffix or appended version): every buffer over {0,1,2} of length <=6 (quick) / <=8 (thorough) x every ordered pair of windows of which one reaches the end; one rand case in six is built the same way. A case is one input pair {lhs, rhs} of slice.EditScript (integer elements). leg exh enumerates, in order of "
             "total length and spread over all cores, EVERY pair over {0,1,2} with both lengths <= 6 and every pair over "
             "{0,1} with both lengths <= 9 (quick; 2.2 M pairs) / {0,1,2} <= 8, {0,1} <= 11 and every pair over {0,1,2,3} "
@@ -566,9 +566,9 @@ PROPS["C11"] = {
 PROPS["C12"] = {
     "legs": [plain("lisexh", "pslice", "TestC12LISExhaustive", solo=True),
              plain("lcsexh", "pslice", "TestC12LCSExhaustive", solo=True),
-             rapid("lisrand", "pslice", "TestC12LISRand", 4, 10000, 16, 500000),
-             rapid("lisbig", "pslice", "TestC12LISBig", 4, 40, 16, 1500),
-             rapid("lcsrand", "pslice", "TestC12LCSRand", 4, 5000, 16, 150000)],
+             rapid("lisrand", "pslice", "TestC12LISRand", 4, 10000, 16, 200000),
+             rapid("lisbig", "pslice", "TestC12LISBig", 4, 40, 16, 600),
+             rapid("lcsrand", "pslice", "TestC12LCSRand", 4, 5000, 16, 60000)],
     "rule": "LIS/LNDS legs: a case is {vs, cmp} with cmp in nat (slice.LIS / slice.LNDS), rev (LISFunc / LNDSFunc with the "
             "reversed order) or half (…Func comparing v>>1, so distinct elements compare equal and the identity of the "
             "returned elements is observable); BOTH the strict and the non-decreasing function are called on every case. "
@@ -605,7 +605,7 @@ PROPS["C12"] = {
 
 PROPS["C17"] = {
     "legs": [plain("exh", "pslice", "TestC17Exhaustive", solo=True),
-             rapid("rand", "pslice", "TestC17Rand", 4, 10000, 16, 4000000)],
+             rapid("rand", "pslice", "TestC17Rand", 4, 10000, 16, 1500000)],
     "rule": "A case is one call {fn, n, k, spare, keep, rows}: the slice has n distinct elements 100+i, `spare` filler "
             "elements of spare capacity behind it and a sentinel after its capacity; k is the numeric argument. leg exh "
             "enumerates, by slice length: Partition for EVERY keep pattern of n <= 12 (quick) / 18 (thorough) elements "
